@@ -193,14 +193,15 @@ def run_summary(case):
     tmp = FORCED_DIR[0] or tempfile.mkdtemp(prefix='c18-')
     try:
         for stale in ('feature_singles.tsv', 'feature_singles_aggregated.tsv'):
-            if FORCED_DIR[0] and os.path.exists(os.path.join(tmp, stale)):
+            if FORCED_DIR[0] and not SKIP_WRITE[0] and os.path.exists(os.path.join(tmp, stale)):
                 os.unlink(os.path.join(tmp, stale))
-        with open(os.path.join(tmp, 'pairwise_ranks.tsv'), 'w', encoding='utf-8') as fh:
-            fh.write('FeatureA\tFeatureB\tScore\n')
-            for a, b, s in case['rows']:
-                lab = lambda x: label_full if x == -1 or label_alt_full is None else label_alt_full   # noqa: E731
-                fh.write('%s\t%s\t%s\n' % (lab(a) if a < 0 else names[a], lab(b) if b < 0 else names[b],
-                                           _fmt(s, case['int_scores'])))
+        if not (SKIP_WRITE[0] and os.path.exists(os.path.join(tmp, 'pairwise_ranks.tsv'))):
+            with open(os.path.join(tmp, 'pairwise_ranks.tsv'), 'w', encoding='utf-8') as fh:
+                fh.write('FeatureA\tFeatureB\tScore\n')
+                for a, b, s in case['rows']:
+                    lab = lambda x: label_full if x == -1 or label_alt_full is None else label_alt_full   # noqa: E731
+                    fh.write('%s\t%s\t%s\n' % (lab(a) if a < 0 else names[a], lab(b) if b < 0 else names[b],
+                                               _fmt(s, case['int_scores'])))
         args = SimpleNamespace(output_folder=tmp, label_column=case['label'], heuristic=case['heuristic'], tldr='False',
                                interaction_order=case['order'], task='ranking_summary')
         with contextlib.redirect_stdout(io.StringIO()):
@@ -222,6 +223,7 @@ def run_summary(case):
 
 
 FORCED_DIR = [None]
+SKIP_WRITE = [False]      # re-summarise the ranking file that is already in the folder (same table, other summary arguments)
 
 
 @st.composite
@@ -239,9 +241,15 @@ def oracle_rerun(case, rec):
         sub = Rec()
         oracle_singles(case['second'], sub)
         oracle_aggregated(case['second'], sub)
+        # ... and once more WITHOUT rewriting the ranking file, with the other kind of heuristic name (normalised <-> raw scores)
+        third = dict(case['second'], heuristic='surrogate-SGD' if 'MI' in case['second']['heuristic'] else 'MI-numba-randomized')
+        SKIP_WRITE[0] = True
+        oracle_singles(third, sub)
+        oracle_aggregated(third, sub)
         rec.nt(sub.nontrivial, key=case)
         rec.cls('rerun-same-folder')
     finally:
+        SKIP_WRITE[0] = False
         FORCED_DIR[0] = None
         shutil.rmtree(d, ignore_errors=True)
 
